@@ -75,6 +75,9 @@ func (m *Matrix) C05RepCases(thorough bool) []Case {
 	var out []Case
 	for i := range m.Workloads {
 		e := &m.Workloads[i]
+		if e.Synthetic {
+			continue
+		}
 		if !thorough && !c05Quick[e.Name] {
 			continue
 		}
